@@ -116,9 +116,6 @@ class FakeSeries(object):
     def __iter__(self):
         return iter(self._v)
 
-    def __getitem__(self, i):
-        raise Unsupported('Series.__getitem__ not modelled')
-
     @property
     def values(self):
         return list(self._v)
@@ -156,6 +153,40 @@ class FakeSeries(object):
 
     def apply(self, fn):
         return FakeSeries([fn(v) for v in self._v], self.index, DType('object'))
+
+    map = apply
+
+    def dropna(self, inplace=False):
+        if inplace:
+            raise Unsupported('Series.dropna(inplace=True)')
+        keep = [i for i, v in enumerate(self._v) if not is_missing_value(v)]      # may branch
+        return FakeSeries([self._v[i] for i in keep], [self.index[i] for i in keep], self.dtype, self.name)
+
+    def __getitem__(self, key):
+        if isinstance(key, FakeSeries):
+            key = key._v
+        if isinstance(key, list) and len(key) == len(self._v):
+            keep = [i for i, k in enumerate(key) if k]
+            return FakeSeries([self._v[i] for i in keep], [self.index[i] for i in keep], self.dtype, self.name)
+        if isinstance(key, slice):
+            idx = list(range(len(self._v)))[key]
+            return FakeSeries([self._v[i] for i in idx], [self.index[i] for i in idx], self.dtype, self.name)
+        hits = [i for i, l in enumerate(self.index) if l == key]
+        if len(hits) == 1:
+            return self._v[hits[0]]
+        raise Unsupported('Series[%r]' % (key,))
+
+    def items(self):
+        return iter(list(zip(self.index, self._v)))
+
+    def astype(self, t):
+        if t in (str, 'str', object, 'object'):
+            return FakeSeries(list(self._v), self.index, DType('object'), self.name)
+        raise Unsupported('Series.astype(%r)' % (t,))
+
+    @property
+    def empty(self):
+        return len(self._v) == 0
 
     def tolist(self):
         return list(self._v)
@@ -268,9 +299,16 @@ class FakeFrame(object):
             return self._sub([self._rows[i] for i in keep], [self.index[i] for i in keep])
         raise Unsupported('FakeFrame[%r]' % (key,))
 
-    def dropna(self, axis=0, subset=None, how='any'):
+    def dropna(self, axis=0, subset=None, how='any', inplace=False):
         if axis != 0 or subset is None:
             raise Unsupported('dropna form not modelled')
+        if inplace:
+            # pandas mutates the receiver and returns None; logged as a mutation of the frame
+            res = self.dropna(axis=axis, subset=subset, how=how)
+            if len(res._rows) != len(self._rows):
+                self.mutations.append(('dropna', 'inplace'))      # observable change of the receiver
+            self._rows, self.index = list(res._rows), list(res.index)
+            return None
         js = [self._cols.index(c) for c in subset]
         keep = []
         for i, r in enumerate(self._rows):
